@@ -1,8 +1,8 @@
 (* The hint returned by LZ4F_decompress (Model/FrameD.v) against the number of frame bytes not yet consumed.
 
    The claim "on a specification-valid frame the hint never exceeds what is left of the frame" - which Model/Io.v's
-   abstraction of the single-thread LZ4IO_decompressLZ4F loop ("reads exactly the bytes of the frame") rests on - is
-   FALSE, of the model and of the C code alike:  lib/lz4frame.c, case dstage_storeCBlock, "need more input":
+   abstraction of the single-thread LZ4IO_decompressLZ4F loop ("reads exactly the bytes of the frame") rests on - WAS
+   FALSE before the repair of finding F21, of the model and of the C code alike:  lib/lz4frame.c, case dstage_storeCBlock, "need more input":
        nextSrcSizeHint = (tmpInTarget - tmpInSize) + (blockChecksumFlag ? BFSize : 0) + BHSize
    but for a compressed block tmpInTarget already contains the block checksum (tmpInTarget = nextCBlockSize + crcSize
    in the block-header stage).  With block checksums, a compressed block that arrives in two pieces makes the hint
@@ -30,17 +30,11 @@ Definition hw_frame : list byte :=
   le_bytes 4 MAGIC ++ hw_desc ++ [header_checksum hw_desc] ++ le_bytes 4 (Z.of_nat (length hw_blk)) ++ hw_blk
   ++ le_bytes 4 (xxh32 0 hw_blk) ++ le_bytes 4 0.
 
+(* on the repaired code (dstage_storeCBlock no longer counts the block checksum twice) the frame that witnessed the
+   violation gets the exact hint: 14 bytes are left, 14 are asked for *)
 Lemma hint_witness :
   frame_decode spec_decode false [] hw_frame = Some ([1; 2; 3; 4; 5; 6; 7; 8; 9; 10], []) /\
   bytes_ok hw_frame = true /\ zlen hw_frame = 30 /\
   let r := snd (decompress spec_decode dctx_init (ztake 16 hw_frame) 100 (mkO false false false)) in
-  r_consumed r = 16 /\ r_ret r = 18.
+  r_consumed r = 16 /\ r_ret r = 14.
 Proof. vm_compute. repeat split; reflexivity. Qed.
-
-Theorem hint_within_frame_refuted : ~ hint_within_frame_statement.
-Proof.
-  intros H.
-  destruct hint_witness as (W1 & W2 & W3 & W4 & W5).
-  specialize (H spec_decode hw_frame _ 16 100 (mkO false false false) W1 W2 ltac:(rewrite W3; lia) ltac:(lia)).
-  cbv zeta in H. specialize (H W4 ltac:(rewrite W5; lia)). rewrite W5, W3 in H. lia.
-Qed.
